@@ -13,7 +13,7 @@ vars == <<l, cnt>>
 
 ToSt(p, c) == [rec |-> [k \in CertKeys |-> p.rec[k]], cert |-> [k \in CertKeys |-> p.cert[k]],
                prevrec |-> [k \in CertKeys |-> p.prevrec[k]], hasprev |-> [k \in CertKeys |-> p.hasprev[k]],
-               prevfresh |-> [k \in CertKeys |-> p.prevfresh[k]], cfg |-> [nidl |-> c.nidl, base |-> c.base]]
+               prevcert |-> [k \in CertKeys |-> p.prevcert[k]], phase |-> p.phase, cfg |-> [nidl |-> c.nidl, base |-> c.base]]
 SeqToSet(s) == {s[i] : i \in 1..Len(s)}
 
 \* expected metadata: the offered list minus the certificate-preference entries, in order
@@ -28,11 +28,11 @@ Viols(e, pre) ==
      (IF e.op.kind = "mixedFA" /\ e.res = "auth" THEN {<<"C02", "fetch-handshake-yielded-connection">>} ELSE {}) \cup
      (IF e.op.kind \in {"auth", "mixedAF", "mixedFA"} /\ e.res \in {"base", "fetchconn", "othertype"} THEN {<<"C02", "library-client-returned-as-other-connection">>} ELSE {})
    ELSE {}) \cup
-  (IF "C02" \in Props /\ e.op.op = "Dial" /\ e.res = "auth" /\ ~(pre.rec[e.op.k] /\ pre.cert[e.op.k] \in {"fresh", "pending"})
+  (IF "C02" \in Props /\ e.op.op = "Dial" /\ e.res = "auth" /\ ~(pre.rec[e.op.k] /\ (pre.cert[e.op.k] = "pending" \/ Connectable(pre, pre.cert[e.op.k])))
      THEN {<<"C02", "unregistered-or-stale-node-authenticated">>} ELSE {}) \cup
-  (IF "C02" \in Props /\ e.op.op = "DialPrev" /\ e.res = "auth" /\ ~(pre.prevrec[e.op.k] /\ pre.prevfresh[e.op.k])
+  (IF "C02" \in Props /\ e.op.op = "DialPrev" /\ e.res = "auth" /\ ~(pre.prevrec[e.op.k] /\ Connectable(pre, pre.prevcert[e.op.k]))
      THEN {<<"C02", "previous-credentials-authenticated-without-stored-record">>} ELSE {}) \cup
-  (IF "C07" \in Props /\ e.op.op = "DialPrev" /\ pre.prevrec[e.op.k] /\ pre.prevfresh[e.op.k] /\ e.res # "auth"
+  (IF "C07" \in Props /\ e.op.op = "DialPrev" /\ pre.prevrec[e.op.k] /\ Connectable(pre, pre.prevcert[e.op.k]) /\ e.res # "auth"
      THEN {<<"C07", "registered-node-cannot-connect-to-its-own-server">>} ELSE {}) \cup
   (IF "C07" \in Props /\ e.op.op = "RotateNode" /\ pre.rec[e.op.k] /\ e.res # "ok"
      THEN {<<"C07", "credential-rotation-of-registered-node-fails">>} ELSE {}) \cup
@@ -42,7 +42,7 @@ Viols(e, pre) ==
         THEN {<<"C07", "unregistered-dial-does-not-report-not-authorized">>} ELSE {}) \cup
      (IF e.op.op = "Dial" /\ pre.cert[e.op.k] = "pending" /\ ~pre.rec[e.op.k] /\ ~e.obs.credsUnchanged
         THEN {<<"C07", "unregistered-dial-changed-stored-credentials">>} ELSE {}) \cup
-     (IF e.op.op = "Dial" /\ pre.rec[e.op.k] /\ pre.cert[e.op.k] \in {"pending", "fresh"} /\ e.res # "auth"
+     (IF e.op.op = "Dial" /\ pre.rec[e.op.k] /\ (pre.cert[e.op.k] = "pending" \/ Connectable(pre, pre.cert[e.op.k])) /\ e.res # "auth"
         THEN {<<"C07", "registered-node-cannot-connect-to-its-own-server">>} ELSE {}) \cup
      (IF e.op.op = "Dial" /\ e.res = "auth" /\ ~e.obs.sameKey THEN {<<"C07", "certificate-key-changed-across-authorisation">>} ELSE {})
    ELSE {}) \cup
@@ -58,7 +58,7 @@ Viols(e, pre) ==
      (IF "fatal" \in SeqToSet(e.obs.kinds) THEN {<<"C14", "non-temporary-error-for-connection-failure">>} ELSE {}) \cup
      (IF "timeout" \in SeqToSet(e.obs.kinds) THEN {<<"C14", "listener-did-not-return">>} ELSE {})
    ELSE {}) \cup
-  (IF "C14" \in Props /\ e.op.op = "Dial" /\ pre.rec[e.op.k] /\ pre.cert[e.op.k] = "fresh" /\ e.res # "auth"
+  (IF "C14" \in Props /\ e.op.op = "Dial" /\ pre.rec[e.op.k] /\ Connectable(pre, pre.cert[e.op.k]) /\ e.res # "auth"
      THEN {<<"C14", "honest-node-cannot-connect">>} ELSE {}) \cup
   (IF "C16" \in Props /\ e.res = "auth" /\ e.op.op \in {"Dial", "Connect"} THEN
      (IF ~e.obs.offeredOK THEN {} ELSE
@@ -79,14 +79,14 @@ Step ==
   /\ LET e == TraceLog[l]
          pre == ToSt(e.pre, e.cfg)
          post == ToSt(e.post, e.cfg)
-         judged == e.res \notin {"skip", "harness-error"}
+         judged == e.res \notin {"skip", "harness-error"} /\ ~e.unc
          vs == IF judged THEN Viols(e, pre) ELSE {}
          pred == Apply(pre, e.op)
          drift == judged /\ (pred.res # e.res \/ pred.st # post)
      IN /\ \A v \in vs : PrintT(<<"VIOL", v[1], v[2], e.tr, e.i>>)
         /\ (drift => PrintT(<<"DRIFT", e.tr, e.i, e.op.op, pred.res, e.res, pred.st = post>>))
         /\ cnt' = [lines |-> cnt.lines + 1, nontrivial |-> cnt.nontrivial + (IF judged /\ NonTrivial(e) THEN 1 ELSE 0),
-                   drift |-> cnt.drift + (IF drift THEN 1 ELSE 0), viol |-> cnt.viol + Cardinality(vs), unc |-> cnt.unc]
+                   drift |-> cnt.drift + (IF drift THEN 1 ELSE 0), viol |-> cnt.viol + Cardinality(vs), unc |-> cnt.unc + (IF e.unc THEN 1 ELSE 0)]
         /\ l' = l + 1
 
 Finish == l = Len(TraceLog) + 1 /\ PrintT(<<"DONE", cnt.lines, cnt.nontrivial, cnt.drift, cnt.viol, cnt.unc>>) /\ l' = l + 1 /\ UNCHANGED cnt
